@@ -1,6 +1,8 @@
 import SamVerif.Model.Doc
 import SamVerif.Model.CommentQueue
 import SamVerif.Model.Imports
+import SamVerif.Model.Attach
+import SamVerif.Model.ExprDoc
 import Driver.Util
 /-! Protocols of C09 (model side): `layout`, `expand`, `flatten`, `layoutdoc`, `agree`, `queue`,
 `prepend`, `echo`. Same line formats as `harness/src/bin/c09.rs`. -/
@@ -116,7 +118,65 @@ def readImports (s : String) : List Import :=
           | _ => { name := strOfHex m, comments := [] } }
     | _ => { path := [], comments := [], members := [] }
 
-open SamVerif.CommentQueue SamVerif.Imports in
+open SamVerif.CommentQueue SamVerif.Attach in
+def readCs (s : String) : List Comment :=
+  if s == "-" then [] else (s.splitOn ",").map fun t => ⟨.block, t.toList⟩
+
+open SamVerif.CommentQueue SamVerif.Attach in
+def showCs (cs : List Comment) : String :=
+  if cs.isEmpty then "-" else ",".intercalate (cs.map fun c => String.ofList c.text)
+
+open SamVerif.Attach in
+/-- skeleton reader: `leaf cs` | `post cs e` | `bin cs l ocs r`. -/
+partial def parseCE : List String → Option (CE × List String)
+  | "leaf" :: cs :: r => some (.leaf (readCs cs) 0, r)
+  | "post" :: cs :: r => do
+    let (e, r) ← parseCE r
+    pure (.post (readCs cs) e 0, r)
+  | "bin" :: cs :: r => do
+    let (l, r) ← parseCE r
+    match r with
+    | ocs :: r => do
+      let (rr, r) ← parseCE r
+      pure (.bin (readCs cs) l (readCs ocs) 0 rr, r)
+    | [] => none
+  | _ => none
+
+open SamVerif.Attach in
+partial def showCE : CE → String
+  | .leaf cs _ => "leaf " ++ showCs cs
+  | .post cs e _ => "post " ++ showCs cs ++ " " ++ showCE e
+  | .bin cs l ocs _ r => "bin " ++ showCs cs ++ " " ++ showCE l ++ " " ++ showCs ocs ++ " " ++ showCE r
+
+open SamVerif.CommentQueue in
+def readKindCs (s : String) : List Comment :=
+  if s == "-" then [] else (s.splitOn ",").map fun c =>
+    match c.splitOn "=" with
+    | [k, h] => ⟨kindOf k, strOfHex h⟩
+    | _ => ⟨.block, []⟩
+
+open SamVerif.ExprDoc in
+def binOpOf (s : String) : Option BinOp :=
+  [BinOp.mul, .div, .mod, .plus, .minus, .concat, .lt, .le, .gt, .ge, .eq, .ne, .and, .or].find?
+    (fun o => String.ofList (opStr o) == s)
+
+open SamVerif.ExprDoc in
+/-- `A cs hexname` | `U cs hexop e` | `B cs hexop ocs l r`. -/
+partial def parseAExpr : List String → Option (AExpr × List String)
+  | "A" :: cs :: n :: r => some (.atom (readKindCs cs) (strOfHex n), r)
+  | "U" :: cs :: o :: r => do
+    let (e, r) ← parseAExpr r
+    let u ← (if String.ofList (strOfHex o) == "!" then some UOp.not
+             else if String.ofList (strOfHex o) == "-" then some UOp.neg else none)
+    pure (.unary (readKindCs cs) u e, r)
+  | "B" :: cs :: o :: ocs :: r => do
+    let op ← binOpOf (String.ofList (strOfHex o))
+    let (l, r) ← parseAExpr r
+    let (rr, r) ← parseAExpr r
+    pure (.binary (readKindCs cs) op (readKindCs ocs) l rr, r)
+  | _ => none
+
+open SamVerif.CommentQueue SamVerif.Imports SamVerif.Attach in
 def step (_ : Unit) (line : String) : Unit × String :=
   let ws := words line
   ((), match ws with
@@ -176,6 +236,20 @@ def step (_ : Unit) (line : String) : Unit × String :=
       -- the module continues after the imports: `C <import doc> C <import doc> .. C LH` is a prefix
       let parts := (sortedGroups imps).map fun g => "C " ++ showDoc (importDoc g)
       s!"ok more {dump} | {" ".intercalate (parts ++ (if imps.isEmpty then [] else ["C LH"]))}"
+  | "exprdocm" :: w :: tree =>
+    match parseAExpr tree with
+    | some (e, []) =>
+      let d := SamVerif.ExprDoc.docOf e
+      "ok " ++ hexOfStr (prettyPrint w.toNat! d) ++ " " ++ " ".intercalate tree ++ " | " ++ showDoc d
+    | _ => "bad-tree"
+  | "attachm" :: extra :: skel =>
+    match parseCE skel with
+    | some (e, []) => showCE e ++ " | " ++ showCE (attachLeft (readCs extra) e)
+    | _ => "bad-skeleton"
+  | "parenm" :: start :: stop :: skel =>
+    match parseCE skel with
+    | some (e, []) => showCE e ++ " | " ++ showCE (wrapLeft (readCs start) (readCs stop) e)
+    | _ => "bad-skeleton"
   | "echo" :: rest => " ".intercalate rest
   | _ => "bad-op")
 
